@@ -550,9 +550,83 @@ func (P *Program) guardFor(styp types.Type, field string) (string, bool) {
 	return m, ok
 }
 
+// guardedSub: is ref the address of a struct embedded by value in a guarded
+// field (e.g. &ec.stack with "guarded Collector.{stack} by mu")? Returns the
+// mutex term of the owner.
+func (x *Exec) guardedSub(cfg *Config, ref Term) (Term, string, bool) {
+	s := ref.S
+	if !strings.HasPrefix(s, "(sub!") && !strings.HasPrefix(s, "(|sub!") {
+		return Term{}, "", false
+	}
+	sp := strings.IndexByte(s, ' ')
+	if sp < 0 {
+		return Term{}, "", false
+	}
+	name := strings.Trim(s[1:sp], "|")          // sub!erc.Collector.stack
+	parent := Term{s[sp+1 : len(s)-1], SInt}      // owner reference
+	full := strings.TrimPrefix(name, "sub!")      // erc.Collector.stack
+	dot := strings.LastIndex(full, ".")
+	if dot < 0 {
+		return Term{}, "", false
+	}
+	tn, fld := full[:dot], full[dot+1:]
+	x.P.guardFor(types.Typ[types.Int], "") // make sure the table is built
+	mfield, ok := x.P.guards[tn+"."+fld]
+	if !ok {
+		return Term{}, "", false
+	}
+	// find the owner's struct type to locate the mutex field
+	var styp types.Type
+	if i := strings.LastIndex(tn, "."); i >= 0 {
+		if pkg := x.pkgOf(tn[:i]); pkg != nil {
+			if obj := pkg.Scope().Lookup(tn[i+1:]); obj != nil {
+				styp = obj.Type()
+			}
+		}
+	}
+	if styp == nil {
+		return Term{}, "", false
+	}
+	st, ok := styp.Underlying().(*types.Struct)
+	if !ok {
+		return Term{}, "", false
+	}
+	for i := 0; i < st.NumFields(); i++ {
+		if st.Field(i).Name() != mfield {
+			continue
+		}
+		if isStructType(st.Field(i).Type()) {
+			return x.subRef(styp, i, parent), tn + "." + fld + " by " + mfield, true
+		}
+		_, arr, _ := x.fieldArr(cfg.st, styp, i)
+		return Select(arr, parent), tn + "." + fld + " by " + mfield, true
+	}
+	return Term{}, "", false
+}
+
+// guardedCall: calling a method on a guarded embedded object, or letting its
+// address escape, needs the owner's mutex.
+func (x *Exec) guardedCall(cfg *Config, recv Val, what string, pos token.Pos) {
+	tv, ok := recv.(TV)
+	if !ok {
+		return
+	}
+	if m, desc, ok := x.guardedSub(cfg, tv.T); ok {
+		x.oblige(cfg, "guarded-call", what+" on "+desc, Select(x.heldArr(cfg.st), m), []string{"C13"}, pos)
+	}
+}
+
 func (x *Exec) guardedAccess(cfg *Config, addr Val, write bool, what string, pos token.Pos) {
 	a, ok := addr.(AddrV)
 	if !ok || a.Kind != aField || a.STyp == nil {
+		return
+	}
+	if m, desc, ok := x.guardedSub(cfg, a.Base); ok {
+		rw := "read"
+		if write {
+			rw = "write"
+		}
+		x.oblige(cfg, "guarded-"+rw, desc, Or(Select(x.heldArr(cfg.st), m), Gt(a.Base, x.d.Const("H0!$top", SInt))), []string{"C13"}, pos)
 		return
 	}
 	fname, _ := fieldNameOf(a.STyp, a.FIdx)
